@@ -4,12 +4,15 @@
 import json, os, shutil, subprocess, sys
 ROOT = os.path.dirname(os.path.dirname(os.path.abspath(__file__)))
 pid, var = sys.argv[1], sys.argv[2]
-extra = [a for a in sys.argv[3:] if a not in ("round2", "round3")]
+extra = [a for a in sys.argv[3:] if a not in ("round2", "round3", "round4")]
 round2 = "round2" in sys.argv[3:]
 round3 = "round3" in sys.argv[3:]
-src = f"/tmp/mutout3_{pid}/{var}" if round3 else f"/tmp/mutout2_{pid}/{var}" if round2 else f"/tmp/mutout_{pid}/{var}"
-label = pid + ({"a": "e", "b": "f"}[var] if round3 else {"a": "c", "b": "d"}[var] if round2 else var)
-wt = f"/tmp/mut_{pid}"
+round4 = "round4" in sys.argv[3:]
+src = (f"/tmp/mutout4_{pid}/{var}" if round4 else f"/tmp/mutout3_{pid}/{var}" if round3
+       else f"/tmp/mutout2_{pid}/{var}" if round2 else f"/tmp/mutout_{pid}/{var}")
+label = pid + ({"a": "g", "b": "h"}[var] if round4 else {"a": "e", "b": "f"}[var] if round3
+               else {"a": "c", "b": "d"}[var] if round2 else var)
+wt = f"/tmp/mut4_{pid}" if round4 else f"/tmp/mut_{pid}"
 patch = os.path.join(src, "patch.diff")
 ran = []
 # 1. confirm in the scratch worktree: applies, existing tests pass
@@ -22,6 +25,11 @@ t = subprocess.run(["cargo", "test", "--workspace", "--offline", "--no-fail-fast
 results = [l for l in (t.stdout + t.stderr).splitlines() if l.startswith("test result")]
 tests_ok = t.returncode == 0
 ran.append("cargo test --workspace --offline --no-fail-fast (in scratch worktree, change applied): " + ("pass" if tests_ok else "FAIL") + " " + "; ".join(results))
+t2 = subprocess.run(["cargo", "test", "-p", "bio-seq", "--features", "translation,extra_codecs,serde", "--offline", "--no-fail-fast"], cwd=wt,
+                    capture_output=True, text=True, env=dict(os.environ, CARGO_NET_OFFLINE="true"))
+results2 = [l for l in (t2.stdout + t2.stderr).splitlines() if l.startswith("test result")]
+ran.append("cargo test -p bio-seq --features translation,extra_codecs,serde --offline (change applied): " + ("pass" if t2.returncode == 0 else "FAIL") + " " + "; ".join(results2))
+feature_tests_ok = t2.returncode == 0
 # 2. demo fails with the change, passes without (standalone cargo demo projects only)
 demo = os.path.join(src, "demo")
 demo_with = demo_without = None
@@ -56,4 +64,4 @@ if valid:
             "what_was_run": ran, "detected_by_quick_checks": detected,
             "sample_violation": [l for l in m.stdout.splitlines() if l.strip().startswith("{\"profile\"")][:1]}
     json.dump(meta, open(os.path.join(out, "meta.json"), "w"), indent=1)
-print(json.dumps({"id": label, "valid": valid, "tests_ok": tests_ok, "demo_with": demo_with, "demo_without": demo_without, "detected": detected}))
+print(json.dumps({"id": label, "valid": valid, "tests_ok": tests_ok, "feature_tests_ok": feature_tests_ok, "demo_with": demo_with, "demo_without": demo_without, "detected": detected}))
